@@ -15,6 +15,7 @@ pub mod record;
 #[cfg(feature = "parallel")]
 pub mod rvx;
 pub mod sys;
+pub mod unwind;
 
 pub fn quiet_panics() {
     std::panic::set_hook(Box::new(|_| {}));
